@@ -207,6 +207,15 @@ def run(ctx):
     incs = [s for s in paths.stores(re_) if s["path"].endswith("info.fanin")]
     ctx.check(p4, sorted((s["path"], s["op"]) for s in incs) == [("node->info.fanin", "++"), ("node->info.fanin", "=")], key(re_, "fanout"), re_.where(re_.root), "fan-out is not reset and counted once per exit (%s)" % [(s["path"], s["op"]) for s in incs])
 
+    for g in (te, re_):
+        dq = g.calls("lattice_delq")
+        pq = g.calls("lattice_pushq")
+        cnt = [s["node"] for s in paths.stores(g) if s["path"].endswith("info.fanin")]
+        ok = len(dq) >= 1 and len(pq) >= 1 and all(paths.always_before(g, x, lambda e: e == dq[0]) for x in pq + cnt[:1])
+        ctx.check(p4, ok, key(g, "fresh-agenda"), g.where(g.root), "a traversal does not empty the edge agenda before counting and queueing: edges left by an abandoned traversal would be popped again, corrupting fan-in counts, path scores and alphas")
+        nx_ = [r for r in g.find("Return")]
+        ctx.check(p4, len(nx_) == 1 and g.canon(g.ch(nx_[0])[0], subst=False).startswith("lattice_%s_next(dag, " % ("traverse" if g is te else "reverse")), key(g, "first-edge"), g.where(g.root), "the traversal does not hand out its first edge through the matching next function")
+
     # ---- P5 scaling term ---------------------------------------------------------------------------------
     p5 = ctx.rule("TWIN.P5-scaling", "alpha, beta, the normaliser and the joint all scale an acoustic score as (int)((ascr << SENSCR_SHIFT) * ascale); alpha and beta accumulate with logmath_add over the same neighbourhoods", floor=5)
     terms = []
